@@ -8,6 +8,7 @@ from docs/reference.rst (vf/libgen/libs.py: assign_names).
 """
 from __future__ import annotations
 
+import copy
 import itertools
 import os
 import re
@@ -497,6 +498,18 @@ def main(rec):
     tt = [F("ttname", "int", [P("t", "val", "ArgType")], template=["int", "double"], fid="tt#0"),
           F("ttname", "int", [P("t", "val", "ArgType"), P("b", "val", "int")], template=["int", "double"], fid="tt#1")]
     cases.append({"lib": build_lib("ntt", [tt], "c++", ("c", "fortran"))})
+    # several function templates with two type parameters whose instantiation lists share entries at different positions
+    # (docs/reference.rst template_suffix: with several template arguments the suffix is the position in the template's own list);
+    # the result type is not a template parameter (Shroud deliberately writes no generic when it is)
+    t2 = [[F("pairUp", "int", [P("v", "val", "Value"), P("k", "val", "Index")], tparams=["Value", "Index"],
+             template=[["int", "long"], ["float", "double"]], fid="pu#0")],
+          [F("mixDown", "int", [P("v", "val", "Value"), P("k", "val", "Index")], tparams=["Value", "Index"],
+             template=[["long", "int"], ["int", "long"]], fid="md#0")],
+          [F("lastOne", "int", [P("v", "val", "Value"), P("k", "val", "Index")], tparams=["Value", "Index"],
+             template=[["double", "int"], ["float", "double"], ["int", "long"]], fid="lo#0")],
+          [F("oneArg", "int", [P("t", "val", "ArgType")], template=["long", "int"], fid="oa#0")]]
+    cases.append({"lib": build_lib("nt2", t2, "c++", ("c", "fortran"))})
+    cases.append({"lib": build_lib("nt2ns", [list(g) for g in copy.deepcopy(t2)], "c++", ("c", "fortran"), namespace="outer")})
     if thorough:
         for k in range(60):
             groups = [make_group("g%dname" % gi, *r.choice(combos)[:5], cls=r.choice([None, "K0", "K1"])) for gi in range(r.randint(2, 8))]
